@@ -66,6 +66,31 @@ Definition dump_load_with (d : dev) (pre : pres sdoc) (srcs : list str) : str :=
   | None => b "err"
   end.
 
+(* format . load round trip of a loaded schema (C13, second half):
+   formatted text | the schema loaded from that text | is formatting the reloaded schema the same text.
+   With built-in definitions printed the text is a complete type system and is loaded on its own
+   as a built-in source; otherwise it is loaded after the prelude like any user source. *)
+Definition reload_schema (d : dev) (o : fopts) (pre : pres sdoc) (t : str) : option schema :=
+  if fo_builtin o then
+    match parseSchema d 0 0 true t with
+    | PErr _ => None
+    | POk sd => validateSchemaDocument sd
+    end
+  else load_schema_with d pre [t].
+
+Definition dump_format_loaded (d : dev) (o : fopts) (pre : pres sdoc) (srcs : list str) : str :=
+  match load_schema_with d pre srcs with
+  | None => b "schema-err"
+  | Some s =>
+    let t := FormatSchema d o s in
+    hex t ++ 124%N ::
+    match reload_schema d o pre t with
+    | None => b "err"
+    | Some s2 => b "ok " ++ dump_schema s2 ++ 124%N ::
+                 (if str_eqb (FormatSchema d o s2) t then b "1" else b "0")
+    end
+  end.
+
 (* ---------------- validation ---------------- *)
 Fixpoint split_on (sep : N) (l cur : str) : list str :=
   match l with
